@@ -39,6 +39,8 @@ pub struct FaultCounts {
     pub heap_layout: u64,
     #[serde(default)]
     pub clock: u64,
+    #[serde(default)]
+    pub log_level: u64,
 }
 
 impl FaultCounts {
@@ -55,6 +57,7 @@ impl FaultCounts {
         self.debug_session += o.debug_session;
         self.heap_layout += o.heap_layout;
         self.clock += o.clock;
+        self.log_level += o.log_level;
     }
     pub fn any(&self) -> bool {
         self.hash_reseed
@@ -193,6 +196,9 @@ fn plan_faults(plan: &Plan, out: &Outcome, refs: &mut RefTable) -> (FaultCounts,
     if plan.clock_step_ns > 0 && out.clock_reads > 0 {
         f.clock += 1;
     }
+    if plan.log_level.is_some() || plan.threads.iter().flatten().any(|c| c.log_level.is_some()) {
+        f.log_level += 1;
+    }
     let base_nonref = plan.hash_base != 0;
     let all = plan
         .threads
@@ -275,6 +281,12 @@ fn drop_unusable_calls(plan: &mut Plan, refs: &mut RefTable) -> u64 {
                 continue;
             }
             if let Op::SetCwd { .. } = &c.op {
+                keep.push(c);
+                continue;
+            }
+            if c.warm {
+                // history fillers are not compared, so their reference is not needed up
+                // front; should the execution die, `refs_all_alive` looks at them then
                 keep.push(c);
                 continue;
             }
